@@ -52,3 +52,15 @@ Theorem C15_fields_leaf_rejection_path :
       = (w', c', OErr e) -> e = EValidation (path_join pre k).
 Proof. exact cf_leaf_rejection_path. Qed.
 Print Assumptions C15_fields_leaf_rejection_path.
+
+(* configuration objects: the shape of every refusal *)
+
+Theorem C15_obj_rejection_shape :
+  forall (F : Type) (lvalidate lto_python : F -> pyval -> res pyval) (ldefault : F -> N -> pyval) (lcallable lflag : F -> bool) (vrun : N -> list (str * pyval) -> bool), (forall (f : F) (x : pyval) (q : str), lvalidate f x <> Err (EValidation q)) -> forall (o : cop) (w : world) (pre : str) (c : icfg) (dyn : bool) (vs : list N) (fs : list (str * node F)) (w' : world) (c' : icfg) (e : errk), apply_cop F lvalidate lto_python ldefault lcallable lflag vrun w pre c dyn vs fs o = (w', c', OErr e) -> match o with | CSetObj k _ => e = EAttribute \/ e = EValidation (path_join pre k) | CSetIdxObj k i _ => exists l : list icfg, dget k (c_data c) = Some (VList l) /\ (e = EIndex /\ (Datatypes.length l <= i)%nat \/ verr_below (path_index (path_join pre k) (N.of_nat (Datatypes.length l))) e) | CAppendObj k _ | CInsertObj k _ _ => exists l : list icfg, dget k (c_data c) = Some (VList l) /\ verr_below (path_index (path_join pre k) (N.of_nat (Datatypes.length l))) e | _ => True end.
+Proof. exact obj_rejection_shape. Qed.
+Print Assumptions C15_obj_rejection_shape.
+
+Theorem C15_inst_obj_rejection_shape :
+  forall (vt : vtable) (o : cop) (w : world) (pre : str) (c : icfg) (dyn : bool) (vs : list N) (fs : list (str * inode)) (w' : world) (c' : icfg) (e : errk), apply_cop leaf lvalidate lto_python ldefault l_callable lflag (vrun vt) w pre c dyn vs fs o = (w', c', OErr e) -> match o with | CSetObj k _ => e = EAttribute \/ e = EValidation (path_join pre k) | CSetIdxObj k i _ => exists l : list icfg, dget k (c_data c) = Some (VList l) /\ (e = EIndex /\ (Datatypes.length l <= i)%nat \/ verr_below (path_index (path_join pre k) (N.of_nat (Datatypes.length l))) e) | CAppendObj k _ | CInsertObj k _ _ => exists l : list icfg, dget k (c_data c) = Some (VList l) /\ verr_below (path_index (path_join pre k) (N.of_nat (Datatypes.length l))) e | _ => True end.
+Proof. exact inst_obj_rejection_shape. Qed.
+Print Assumptions C15_inst_obj_rejection_shape.
